@@ -31,6 +31,7 @@ const (
 	c18Short   = 10 * time.Second
 	c18Long    = 100 * time.Hour
 	c18IdleDur = 1000 * time.Second
+	c18MaxBody = 64 // MaxResponseBodySize of the pool under test
 )
 
 type c18Actor struct {
@@ -54,7 +55,7 @@ type c18Dial struct {
 type c18Req struct {
 	actor   int
 	conn    *memConn
-	gate    chan bool // true = answer with Connection: close
+	gate    chan int // how the server answers: 0 keep-alive, 1 Connection: close, 2 a body larger than MaxResponseBodySize, 3 cut inside the body then close
 	pending bool
 }
 
@@ -98,7 +99,7 @@ func (w *c18World) violate(key, detail string) {
 
 func newC18World(max, mode int, fifo bool) *c18World {
 	w := &c18World{max: max, mode: mode, open: map[int]bool{}, busy: map[int]int{}, wcActor: map[*fasthttp.VerifWantConn]int{}, scratch: map[int]bool{}}
-	hc := &fasthttp.HostClient{Addr: "pool.test:80", MaxConns: max, MaxIdleConnDuration: c18IdleDur}
+	hc := &fasthttp.HostClient{Addr: "pool.test:80", MaxConns: max, MaxIdleConnDuration: c18IdleDur, MaxResponseBodySize: c18MaxBody}
 	hc.ConnPoolStrategy = fasthttp.LIFO
 	if fifo {
 		hc.ConnPoolStrategy = fasthttp.FIFO
@@ -149,16 +150,25 @@ func (w *c18World) serve(c *memConn) {
 			w.violate("double-lend", fmt.Sprintf("request of actor %d arrived on connection %d while the request of actor %d is unanswered", a, c.id, prev))
 		}
 		w.busy[c.id] = a
-		rq := &c18Req{actor: a, conn: c, gate: make(chan bool), pending: true}
+		rq := &c18Req{actor: a, conn: c, gate: make(chan int), pending: true}
 		w.reqs = append(w.reqs, rq)
 		w.mu.Unlock()
-		closeIt := <-rq.gate
+		how := <-rq.gate
 		w.mu.Lock()
 		rq.pending = false
 		delete(w.busy, c.id)
 		w.mu.Unlock()
-		c.srvWrite(append(httpRespHead(200, fmt.Sprint(a), 2, closeIt, ""), "ok"...))
-		if closeIt {
+		switch how {
+		case 2:
+			c.srvWrite(append(httpRespHead(200, fmt.Sprint(a), 2*c18MaxBody, false, ""), make([]byte, 2*c18MaxBody)...))
+		case 3:
+			c.srvWrite(append(httpRespHead(200, fmt.Sprint(a), 50, false, ""), "only ten b"...))
+			c.srvClose()
+			return
+		default:
+			c.srvWrite(append(httpRespHead(200, fmt.Sprint(a), 2, how == 1, ""), "ok"...))
+		}
+		if how == 1 {
 			c.srvClose()
 			return
 		}
@@ -175,6 +185,8 @@ func c18ErrClass(err error) string {
 		return "timeout"
 	case errors.Is(err, errC18DialFail):
 		return "dialerr"
+	case errors.Is(err, fasthttp.ErrBodyTooLarge):
+		return "toolarge"
 	}
 	return "err:" + fmt.Sprintf("%T", err)
 }
@@ -267,9 +279,9 @@ func (w *c18World) apply(code byte, n int) bool {
 		if len(pr) == 0 {
 			return false
 		}
-		r := pr[(n/2)%len(pr)]
-		w.ops = append(w.ops, []byte{'S', byte(r.actor*2 + n%2)})
-		r.gate <- n%2 == 1
+		r := pr[(n/4)%len(pr)]
+		w.ops = append(w.ops, []byte{'S', byte(r.actor*4 + n%4)})
+		r.gate <- n % 4
 	case 'T':
 		w.ops = append(w.ops, []byte{'T', 0})
 		time.Sleep(c18Short + time.Millisecond)
@@ -364,7 +376,11 @@ func (w *c18World) observe() {
 		}
 		a.reported = true
 		if a.isReq {
-			rets = append(rets, fmt.Sprintf("%d:%s", a.id, c18ErrClass(a.err)))
+			cls := c18ErrClass(a.err)
+			if strings.HasPrefix(cls, "err:") {
+				cls = "err" // the response was cut: a read error
+			}
+			rets = append(rets, fmt.Sprintf("%d:%s", a.id, cls))
 			continue
 		}
 		if a.cc != nil && a.err != nil {
@@ -968,7 +984,7 @@ func c18Race(a [][]byte) *Case {
 func init() {
 	Register(&Prop{
 		ID: "C18",
-		Rule: "seq: random sequences of 4..30 gated ops (AcquireConn / request through Do / dial ok / dial fail / ReleaseConn / CloseConn / server answers keep-alive|close / " +
+		Rule: "seq: random sequences of 4..30 gated ops (AcquireConn / request through Do / dial ok / dial fail / ReleaseConn / CloseConn / server answers keep-alive | close | with a body larger than MaxResponseBodySize | cut inside the body / " +
 			"short timeout passes / MaxIdleConnDuration passes / CloseIdleConnections / CloseIdleConnections on its own goroutine with slow Closes, stepped through its snapshot while other ops come in between) on a real HostClient in virtual time, MaxConns 1..4, without / long / short MaxConnWaitTimeout, LIFO/FIFO, " +
 			"followed by a teardown that closes everything; thorough adds all sequences of <=4 ops (<=5 for MaxConns 1 with a long MaxConnWaitTimeout) over a 10-op alphabet for MaxConns 1..2 x 3 wait modes; " +
 			"queue: random push/pop/clearFront/pop-until-waiting sequences on wantConnQueue; chaos: 4..8 concurrent actors with random delays and dial faults; " +
